@@ -44,12 +44,18 @@ func vxH_C16_close() {
 	}
 	// optionally the top section is already full when the writers arrive, so
 	// that both of them block on back-pressure at the same time
+	lateStart := false
 	if vxChoose(2) == 1 {
 		pre := &segment{}
 		pre.mutate(OperationSet, []byte{'p'}, []byte{'v'})
 		c.stackDirtyTop = &segmentStack{options: c.options, refs: 1, a: []Segment{pre}}
+		// optionally the background goroutines start only after both
+		// writers are blocked (ExecuteBatch before Start is legal)
+		lateStart = vxChoose(2) == 1
 	}
-	c.Start()
+	if !lateStart {
+		c.Start()
+	}
 	var wg sync.WaitGroup
 	errs := make([]error, 2)
 	for w := 0; w < 2; w++ {
@@ -65,6 +71,11 @@ func vxH_C16_close() {
 			b.Set([]byte{'w', byte('0' + w)}, []byte{'v'})
 			errs[w] = c.ExecuteBatch(b, WriteOptions{})
 		}()
+	}
+	if lateStart {
+		vxQuiesce()
+		c.Start()
+		vxQuiesce()
 	}
 	withNotify := vxChoose(2) == 1
 	if withNotify {
